@@ -42,6 +42,9 @@ JOBS = {
     "poisson": ("Gen_poisson.v", lambda repo: __import__("tools.translate_poisson", fromlist=["translate_poisson"]).translate_poisson(repo)),
     # sigpy/fourier.py: fft / ifft / _fftc / _ifftc over model/Fourier.v (C05) and nufft / nufft_adjoint / helpers over model/Nufft.v, NufftExt.v (C06)
     "fourier": ("Gen_fourier.v", lambda repo: __import__("tools.translate_fourier", fromlist=["translate_fourier"]).translate_fourier(repo)),
+    # what every `_apply` of sigpy/linop.py computes (+ Linop.apply / __call__ / operator overloads) over model/Linop.v's den and
+    # model/OpaqueStd.orc_std (C01-C04)
+    "linop_apply": ("Gen_linop_apply.v", lambda repo: __import__("tools.translate_linop_apply", fromlist=["translate_linop_apply"]).translate_linop_apply(repo)),
 }
 try:
     from tools import translate_more
